@@ -53,6 +53,10 @@ func (state *RuntimeState) BootstrapOtpAuthHandler(w http.ResponseWriter,
 		}
 		inputOtpHash = sha512.Sum512([]byte(val[0]))
 	}
+	// The check and the clearing of the one-time value must be atomic, or
+	// two concurrent presentations are both honoured.
+	state.bootstrapOtpMutex.Lock()
+	defer state.bootstrapOtpMutex.Unlock()
 	profile, _, fromCache, err := state.LoadUserProfile(authData.Username)
 	if err != nil {
 		state.logger.Printf("error loading user profile err=%s", err)
